@@ -357,7 +357,10 @@ class MultiTypeMap(dict):
     def resolve(self, obj_t_tup):
         results = self.mro(obj_t_tup)
         if not results:
-            raise self.key_error(obj_t_tup, ())
+            # Remembered like a success: the same combination is not
+            # resolved again until the methods change
+            err = self.errors[obj_t_tup] = self.key_error(obj_t_tup, ())
+            raise fresh_error(err)
 
         funcs = []
         fallthrough = None
@@ -416,6 +419,10 @@ class MultiTypeMap(dict):
         return True
 
     def __missing__(self, obj_t_tup):
+        if obj_t_tup in self.errors:
+            # A failure that was already worked out
+            raise fresh_error(self.errors[obj_t_tup])
+
         # The keyword part of a key is a set: the order in which a call site
         # writes its keywords leads to the entry of the sorted key
         kw = [t for t in obj_t_tup if isinstance(t, tuple)]
